@@ -4,6 +4,7 @@ import (
 	"bytes"
 	"encoding/hex"
 	"encoding/json"
+	"fmt"
 	"strconv"
 	"strings"
 
@@ -12,6 +13,7 @@ import (
 	sdkmath "cosmossdk.io/math"
 
 	sdk "github.com/cosmos/cosmos-sdk/types"
+	"github.com/cosmos/cosmos-sdk/x/authz"
 
 	transfertypes "github.com/cosmos/ibc-go/v11/modules/apps/transfer/types"
 	clienttypes "github.com/cosmos/ibc-go/v11/modules/core/02-client/types"
@@ -454,25 +456,43 @@ func (s *Sim) checkNativeSupply(chain int) {
 	}
 }
 
-// checkAuthorization (C49): every packet a user transaction committed debits an account that signed it.
+// checkAuthorization (C49): every packet a user transaction committed debits an account that signed it or that
+// authorised the signer (live authz grant recorded by the workload).
 func (s *Sim) checkAuthorization(chain int, o *kit.Outcome, newPkts []*TPkt) {
 	if len(o.Msgs) != 1 {
 		return
 	}
 	var signer string
+	viaAuthz := false
 	switch m := o.Msgs[0].(type) {
 	case *transfertypes.MsgTransfer:
 		signer = m.Sender
 	case *channeltypesv2.MsgSendPacket:
 		signer = m.Signer
+	case *authz.MsgExec:
+		signer, viaAuthz = m.Grantee, true
 	default:
 		return
 	}
+	ch := s.Ch[chain]
+	idx := func(addr string) int {
+		for i := range ch.SenderAccounts {
+			if ch.Addr(i).String() == addr {
+				return i
+			}
+		}
+		return -1
+	}
 	for _, p := range newPkts {
 		s.C.Inc("authorization_checks")
-		if p.Sender != signer {
-			s.viol("C49", "debit-without-authorization", "tx signed by %s moved %s %s out of %s", shortAddr(signer), p.Amt, p.BankSrc, shortAddr(p.Sender))
+		if p.Sender == signer {
+			continue
 		}
+		if viaAuthz && s.grants[fmt.Sprintf("%d|%d|%d", chain, idx(p.Sender), idx(signer))] {
+			s.C.Inc("debits_authorised_by_grant")
+			continue
+		}
+		s.viol("C49", "debit-without-authorization", "tx signed by %s moved %s %s out of %s (authz=%v)", shortAddr(signer), p.Amt, p.BankSrc, shortAddr(p.Sender), viaAuthz)
 	}
 }
 
